@@ -97,15 +97,62 @@ def checkTiers (n : Int) (profiles : List Policy) : List Tier → Option Bool
         | .pass => checkTiers n profiles ts
         | _ => some false
 
-/-- iptables/nftables: tiers as the reference, profiles with "pass ⇒ next profile". -/
+/-! ### iptables/nftables (felix/rules/endpoints.go + policy.go), at the level of the mark bits
+
+A policy/profile chain renders rule i as `[match] → set-mark X` followed by
+`[mark X set] → return` (accept / pass mark) or `→ DROP` (drop mark).  The
+endpoint chain clears the pass mark at the start of every TIER, enters a policy
+only while the pass mark is clear, and after the tiers jumps to each profile
+chain in turn, returning only if the ACCEPT mark is set.  It does NOT clear the
+pass mark before the profiles, so the `[pass mark set] → return` check that
+follows a pass rule of a profile also fires on a pass mark left over from the
+last tier. -/
+
+/-- Result of one profile chain: accepted, dropped, or returned (with the pass mark). -/
+inductive PR | accept | drop | ret (pass : Bool)
+deriving DecidableEq, Repr, Inhabited
+
+def iptProfileRules (env : Env) (p : Pkt) (pass : Bool) : List Rule → PR
+  | [] => .ret pass
+  | r :: rs =>
+    match filterRule env.c.v6 r with
+    | none => iptProfileRules env p pass rs
+    | some fr =>
+      let m := ruleMatch env p .dest fr
+      match actOf r.action with
+      | .allow => if m then .accept else iptProfileRules env p pass rs
+      | .deny => if m then .drop else iptProfileRules env p pass rs
+      | .pass => if m || pass then .ret true else iptProfileRules env p pass rs
+      | .log => iptProfileRules env p pass rs
+      | .invalid => iptProfileRules env p pass rs
+
+def iptProfiles (env : Env) (p : Pkt) : Bool → List Policy → Verdict
+  | _, [] => .deny
+  | pass, pr :: ps =>
+    match iptProfileRules env p pass pr.rules with
+    | .accept => .allow
+    | .drop => .deny
+    | .ret pass' => iptProfiles env p pass' ps
+
+/-- Tiers: the decision, and whether the pass mark is still set when the tiers are left
+(the last tier was left through a pass RULE). -/
+def iptTiers (env : Env) (p : Pkt) : List Tier → Dec × Bool
+  | [] => (.noMatch, false)
+  | t :: ts =>
+    match evalPolicies env p .dest t.policies with
+    | .allow => (.allow, false)
+    | .deny => (.deny, false)
+    | .pass => if ts.isEmpty then (.noMatch, true) else iptTiers env p ts
+    | .noMatch =>
+      match t.endAction with
+      | .pass => iptTiers env p ts
+      | _ => (.deny, false)
+
 def iptVerdict (env : Env) (r : Rules) (p : Pkt) : Verdict :=
-  match evalTiers env p .dest r.tiers with
-  | .allow => .allow
-  | .deny => .deny
-  | _ =>
-    match evalProfiles false env p r.profiles with
-    | .allow => .allow
-    | _ => .deny
+  match iptTiers env p r.tiers with
+  | (.allow, _) => .allow
+  | (.deny, _) => .deny
+  | (_, stale) => iptProfiles env p stale r.profiles
 
 /-- BPF (workload interface, no host policy): `C11.workloadVerdict`. -/
 def bpfVerdict (env : Env) (r : Rules) (p : Pkt) : Verdict := workloadVerdict env { r with forHostInterface := false } p
